@@ -241,7 +241,9 @@ func (ex *executor) run() {
 			time.Sleep(time.Duration(st.DelayNS))
 		}
 		ex.res.Stats.Steps++
-		if st.API != nil {
+		if st.Call != nil {
+			ex.callStep(i, st)
+		} else if st.API != nil {
 			ex.apiStep(i, st)
 		} else {
 			ex.rawStep(i, st)
